@@ -471,13 +471,16 @@ def _worker(inp, outp):
 
 # --------------------------------------------------------------------------- validation by TLC
 _ACC = re.compile(r'<<"ACCEPT", (\d+)>>')
-_BAD = re.compile(r'<<"BAD", (\d+), (\d+),\s*(<<.*?>>)\s*>>', re.S)
+_BAD = re.compile(r'<<\s*"BAD",\s*(\d+),\s*(\d+),\s*(<<.*?>>)\s*>>', re.S)
 TR_CFG = "SPECIFICATION TraceSpec\nCONSTRAINT TraceAccept\n"
 EX_CFG = "SPECIFICATION ExplainSpec\n"
 
 
 def _strip(t):
     return {"id": t["id"], "ev": [{k: e[k] for k in ("a", "w", "eof", "toks", "seen", "seq")} for e in t["ev"]]}
+
+
+KNOWN_HITS = set()      # (trace index, event index) that TLC places in the domain of KF-C17-01 with the as-built observation
 
 
 def validate_events(ctx, traces, parallel=12):
@@ -494,6 +497,7 @@ def validate_events(ctx, traces, parallel=12):
         f.unlink(missing_ok=True)
         return idx, r
 
+    KNOWN_HITS.clear()
     accepted = [False] * len(traces)
     distinct = generated = 0
     wall = 0.0
@@ -511,15 +515,18 @@ def validate_events(ctx, traces, parallel=12):
         rchunks = [rej[i:i + size] for i in range(0, len(rej), size)]
         with ThreadPoolExecutor(len(rchunks)) as ex:
             for idx, r in ex.map(lambda c: run_chunk(c, EX_CFG, "x"), rchunks):
-                for tid, l in re.findall(r'<<"MALFORMED", (\d+), (\d+)>>', r.output):
+                for tid, l in re.findall(r'<<\s*"MALFORMED",\s*(\d+),\s*(\d+)\s*>>', r.output):
                     e = traces[idx[int(tid) - 1]]["ev"][int(l) - 1]
                     raise MachineryError("malformed observation (harness fault): " + json.dumps(e)[:1500])
                 for tid, l, cls in _BAD.findall(r.output):
                     bad[(idx[int(tid) - 1], int(l) - 1)] = re.findall(r'"([A-Z-]+)"', cls)
+                for tid, l in re.findall(r'<<\s*"KF1",\s*(\d+),\s*(\d+)\s*>>', r.output):
+                    KNOWN_HITS.add((idx[int(tid) - 1], int(l) - 1))
                 distinct += r.distinct
                 generated += r.generated
         for i in rej:
             if not any(b[0] == i for b in bad):
+                (VERIF / ".scratch" / "c17-unexplained-trace.json").write_text(json.dumps([_strip(traces[i])]))
                 raise MachineryError(f"trace {traces[i]['id']} rejected by TraceSpec but ExplainSpec flags no event "
                                      "(malformed event?)")
     return accepted, bad, distinct, generated, wall
@@ -569,11 +576,27 @@ def _report(ctx, traces, accepted, bad):
     v.ok(sum(len(t["ev"]) for t in traces) - len(bad))
     if not bad:
         return
+    v.ok(0)
     items = []
     for (ti, ei), cls in bad.items():
         e = traces[ti]["ev"][ei]
+        if (ti, ei) in KNOWN_HITS and v.open_finding("KF-C17-01"):
+            v.known("KF-C17-01", "EPUB table cell left open at end of input is dropped with its visible text: "
+                    + _compact([(t["k"], t["n"]) for t in e["toks"]]), {"html": e["html"]})
+            continue
         items.append((len(e["toks"]), e["w"], _compact([(t["k"], t["n"]) for t in e["toks"]]), e, cls))
     items.sort(key=lambda x: (x[0], x[2], x[1], x[3]["html"]))
+    tally = {}
+    for ln, w, comp, e, cls in items:
+        sn = set(e["seen"])
+        ms = [q for q in e["seq"] if cls[q - 1] == "MUST"]
+        kind = ("lost " if any(c == "MUST" and i + 1 not in sn for i, c in enumerate(cls)) else "") + \
+               ("leaked " if any(c == "MUSTNOT" and i + 1 in sn for i, c in enumerate(cls)) else "") + \
+               ("reordered " if ms != sorted(ms) else "")
+        ctxn = next((t["n"] for t in e["toks"] if t["n"] in ("td", "th", "li", "h2", "a", "b")), "plain")
+        tally[(w, ctxn, kind.strip())] = tally.get((w, ctxn, kind.strip()), 0) + 1
+    if items:
+        ctx.log("rejected observations by (wrapper, context, kind): " +     json.dumps(sorted((list(k) + [n]) for k, n in tally.items())))
     # report the shortest witnesses per (kind of failure, markup involved), two wrappers each; lost / leaked
     # alternate so that both kinds appear among the lines Verdicts prints
     per, chosen = set(), {True: [], False: []}
